@@ -439,7 +439,7 @@ def d4(cx: Cx, ob: Ob) -> None:
                 if op(c_) == "call" and callee_name(c_) in ("_get_curie_preferred_or_synonym", "_get_uri_preferred_or_synonym") and len(c_[2]) >= 2:
                     a2 = c_[2][1]
                     for x_ in subterms(a2):
-                        if op(x_) == "comp" and x_[1] == "dict" and len(x_[3]) == 1 and x_[3][0][2] and any(y_ == mp_ for y_ in subterms(x_[3][0][1])):
+                        if op(x_) == "comp" and x_[1] == "dict" and len(x_[3]) == 1 and x_[3][0][2] and x_[3][0][1] == ("call", ("attr", mp_, "items"), (), ()) and op(x_[3][0][0]) == "tuple" and len(x_[3][0][0][1]) == 2 and op(x_[2]) == "kv" and (x_[2][1], x_[2][2]) == tuple(x_[3][0][0][1]):
                             ob.violate(
                                 fn.qualname,
                                 where(fn, ev_.line),
